@@ -725,4 +725,26 @@ pub mod verif {
     ) -> tako::Result<()> {
         super::resend_stdio(task_id, channel, stdio, stream).await
     }
+
+    /// The environment variables the real `insert_resources_into_env` gives to a task
+    /// (HQ_RESOURCE_VALUES_*, HQ_CPUS, CUDA_VISIBLE_DEVICES, ...), so that a fake launcher can
+    /// compare what a task is told with what it holds.
+    pub fn resources_env(ctx: &tako::launcher::TaskBuildContext) -> Vec<(String, String)> {
+        let mut program = tako::program::ProgramDefinition {
+            args: Vec::new(),
+            env: Default::default(),
+            stdout: Default::default(),
+            stderr: Default::default(),
+            stdin: Vec::new(),
+            cwd: Default::default(),
+        };
+        super::insert_resources_into_env(ctx, &mut program);
+        let mut out: Vec<(String, String)> = program
+            .env
+            .iter()
+            .map(|(k, v)| (k.to_string(), v.to_string()))
+            .collect();
+        out.sort();
+        out
+    }
 }
